@@ -140,6 +140,8 @@ def pinProgress : List String := [
 
 /-- Connector.pinUpdate -/
 def pinUpdate : List String := [
+  "ctx, cancel := context.WithTimeout(ctx, ipfs.config.PinTimeout)",
+  "defer cancel()",
   "path := fmt.Sprintf(S, from, to)",
   "_, err := ipfs.postCtx(ctx, path, S, nil)",
   "if err != nil {",
